@@ -11,7 +11,6 @@ import (
 	"io"
 	"reflect"
 	"sort"
-	"strconv"
 	"strings"
 	"testing"
 
@@ -282,7 +281,7 @@ func runShort(c ShortCase) vrt.Verdict {
 		}
 		named := false
 		for _, n := range both {
-			if strings.Contains(rootCause(gerr), strconv.Quote(n)) {
+			if namesField(gerr, n) {
 				named = true
 			}
 		}
